@@ -97,10 +97,13 @@ theorem daterange_spec (f t : Val N) (fs ts : String) (hf : fmtV f = some fs) (h
   cases f <;> simp [Val.isNull] at hfn <;> cases t <;> simp [Val.isNull] at htn <;>
     simp [call, callBuiltin, callBody, arityOf, arities, fmtR, hf, ht, bind, Except.bind, pure, Except.pure]
 
-theorem lower_upper_ascii (s : String) :
+theorem lower_upper_ascii (s : String) (hs : caseModelled s = true) :
     call (N := N) "to_lower" [.str s] = .ok (.v (.str (String.ofList (s.toList.map Char.toLower)))) ∧
     call (N := N) "to_upper" [.str s] = .ok (.v (.str (String.ofList (s.toList.map Char.toUpper)))) := by
-  constructor <;> simp [call, callBuiltin, callBody, arityOf, arities, lowerStr, upperStr]
+  constructor <;> simp [call, callBuiltin, callBody, arityOf, arities, lowerStr, upperStr, hs]
+
+/-- the hypothesis is satisfiable by non-trivial strings, and refuses what Go's Unicode tables decide -/
+example : caseModelled "MiXed 世 123" = true ∧ caseModelled "Wörld" = false := by decide
 
 theorem changetype_array (x : Val N) (hx : x.isNull = false) :
     call "changetype" [x, .str "array"] = .ok (.v (.arr [x])) := by
